@@ -22,6 +22,17 @@ CLAIMS = {
              "verify_same_mnt on the link' is checked by the tie (call order), not yet a separate theorem.",
         technique="Lean 4 proof (Safe logic over interaction trees, fun_induction on the walks) + transcript-replay correspondence",
         ref="DESIGN.md §8 C05"),
+    "C15": dict(
+        text="Lean theorems (Props/C15.lean): the decision the emulated resolver evaluates equals the kernel's may_follow_link "
+             "(transcribed from fs/namei.c as early returns) for every sysctl value, caller uid, link owner, directory mode and "
+             "owner; nothing is refused with the sysctl off; the refusal condition spelled out. Tie and oracle: the full matrix "
+             "directory mode x directory owner x link owner x caller uid (forked, setresuid) x link position x backend is run with "
+             "the real sysctl at 0 and at 1, replayed through the model, and compared with openat2 issued by the same user.",
+        note="fsuid = euid is assumed (as the code does). The kernel applies the rule to trailing links only; the emulated "
+             "resolver applies it to every followed link (finding F14, listed in known_findings.json, not repaired). The check "
+             "writes fs.protected_symlinks and restores it on every exit path; if not writable the step is reported as skipped.",
+        technique="Lean 4 proof (decision equality over all inputs) + exhaustive matrix differential against the live kernel",
+        ref="DESIGN.md §8 C15"),
     "C16": dict(
         text="Lean theorems (Props/C16.lean) about the error-table state machine: ids lie in [INT_MIN,-4096], an issued id was not "
              "live, the invariant (distinct keys, range) holds after every sequence of store/take operations of any length, an "
